@@ -131,11 +131,15 @@ def _factors(item):
                     if not np.allclose(got, np.array(want), rtol=1e-9, atol=1e-9):
                         viol(f"{names[u]}:group_sum", f"{names[u]} is not the {lvl}-sum of {src}")
     # probe columns supplied by the user in each unit: all 12 conversions as wired by the graph factory
-    for u in "ymwd":
+    for u, as_int in [(u_, i_) for u_ in "ymwd" for i_ in (False, True)]:
         probe = df.copy()
         vals = np.round(np.abs(df["bruttolohn_m"].to_numpy()) + 100.0 + np.arange(len(df)), 2)
+        if as_int:  # whole amounts stored as integers (a user's own column in a non-standard unit)
+            vals = (np.floor(vals) * 7 + 5).astype(np.int64 if u in "ym" else np.int32)
         probe[f"vf_probe_{u}"] = vals
         hv = 100.0 + 3.5 * df["hh_id"].to_numpy()
+        if as_int:
+            hv = (101 + 7 * df["hh_id"].to_numpy()).astype(np.int64)
         probe[f"vf_probe_{u}_hh"] = hv
         tg = [f"vf_probe_{v}" for v in "ymwd" if v != u] + [f"vf_probe_{v}_hh" for v in "ymwd" if v != u]
         try:
@@ -148,14 +152,14 @@ def _factors(item):
                 continue
             res["variants"] += 1
             got = o2[f"vf_probe_{v}"].to_numpy().astype(float)
-            want = vals * N[u] / N[v]  # x_v = x_u * N(u) / N(v), N = units per year
+            want = vals.astype(float) * N[u] / N[v]  # x_v = x_u * N(u) / N(v), N = units per year
             if not np.all(np.abs(got - want) <= 8 * EPS * np.maximum(np.abs(got), np.abs(want))):
                 i = int(np.argmax(np.abs(got - want)))
                 viol(f"{u}_to_{v}:wiring", f"user column vf_probe_{u}={vals[i]!r}: derived vf_probe_{v}={got[i]!r}, expected {want[i]!r}")
             if f"vf_probe_{v}_hh" in o2.columns:
                 res["variants"] += 1
                 goth = o2[f"vf_probe_{v}_hh"].to_numpy().astype(float)
-                wanth = hv * N[u] / N[v]
+                wanth = hv.astype(float) * N[u] / N[v]
                 if not np.all(np.abs(goth - wanth) <= 8 * EPS * np.maximum(np.abs(goth), np.abs(wanth))):
                     viol(f"{u}_to_{v}:wiring_group_level", f"user column vf_probe_{u}_hh: derived vf_probe_{v}_hh differs from the factor")
     res["sample"] = dict(date=item["date"], population=popgen.describe(df), names=res["names"][:10])
